@@ -358,4 +358,11 @@ def check(prop, tier, only=None, list_only=False):
 
 
 if __name__ == "__main__":
-    sys.exit(main())
+    try:
+        rc = main()
+    except Exception:
+        import traceback
+        traceback.print_exc()
+        print("MACHINERY-ERROR: the check itself crashed (no verdict)")
+        rc = 3
+    sys.exit(rc)
